@@ -231,6 +231,13 @@ def own_shapes(rng, tabs):
             out.append(j)
             out.append({"op": "select_columns", "src": {"op": "extend", "src": j, "ops": {"one": "1"}}, "columns": ["one"]})
             out.append({"op": "project", "src": j, "ops": {"n": "_size()"}, "group_by": []})
+    if len(c1) >= 3:
+        g2 = [c for c in c1 if c != "uid"][:2]
+        if len(g2) == 2:          # two group / partition / order keys (a generator that writes only the first one must be seen)
+            out.append({"op": "project", "src": T1, "ops": {"n": "_size()", "m": "uid.max()"}, "group_by": g2})
+            out.append({"op": "select_columns", "src": {"op": "project", "src": T1, "ops": {"n": "_size()"}, "group_by": g2}, "columns": ["n", g2[1]]})
+            out.append({"op": "extend", "src": T1, "ops": {"r": "_row_number()"}, "partition_by": g2, "order_by": ["uid"], "reverse": ["uid"]})
+            out.append({"op": "order_rows", "src": T1, "columns": g2 + ["uid"], "reverse": [g2[1]], "limit": rng.choice([None, 3])})
     e1 = {"op": "extend", "src": T1, "ops": {"x": f"{a} + 1"}}
     out.append({"op": "extend", "src": {"op": "select_columns", "src": e1, "columns": ["x", "uid"]}, "ops": {"y": "uid + 1"}})
     out.append({"op": "extend", "src": {"op": "drop_columns", "src": e1, "columns": [a]}, "ops": {"y": "uid + 1"}})
@@ -255,7 +262,7 @@ def generate(rng, n):
         tabs = SS.gen_tables(rng, rng.choice([0.0, 0.1, 0.3]), types=("int", "float"), empty=rng.random() < 0.08)
         ss = own_shapes(rng, tabs)
         rng.shuffle(ss)
-        for s in ss[:8]:
+        for s in ss[:10]:
             try:
                 cases.append(SS.make_case(s, tabs, "own"))
             except Exception:
